@@ -1584,4 +1584,239 @@ theorem returned_in_bailiwick (cfg : Config) (net : Net) (q : Query) (st : St) (
 
 end returned
 
+/-! ## 8. non-vacuity: a looping internet -/
+
+namespace Ex
+def nA : Name := ⟨[[97]], true⟩          -- a.
+def nB : Name := ⟨[[98]], true⟩          -- b.
+def nNA : Name := ⟨[[110], [97]], true⟩  -- n.a.
+def nNB : Name := ⟨[[110], [98]], true⟩  -- n.b.
+def nWA : Name := ⟨[[119], [97]], true⟩  -- w.a.
+def rootIp : Ip := ⟨false, 1⟩
+
+/-- glueless cycle: `a. NS n.b.` / `b. NS n.a.`, never any glue; everything else is a referral to
+the same two NS sets — no address is ever learnt. -/
+def cycleNet : Net := fun _ q =>
+  let z := if nA.zoneOf q.name then nA else nB
+  let t := if nA.zoneOf q.name then nNB else nNA
+  .msg { rcode := 0, aa := false, answers := [], authorities := [⟨z, 300, .ns t⟩], additionals := [] }
+
+def cfg (nl : Nat) : Config :=
+  { recursionLimit := 24, nsRecursionLimit := nl, roots := [rootIp],
+    serverFilter := ⟨[], []⟩, answerFilter := ⟨[], []⟩ }
+
+theorem cycleNet_bound : NetBound cycleNet 1 := by
+  intro ip q r h
+  simp only [cycleNet] at h
+  cases h
+  simp [nsCount, Response.all, isNsRec, Record.rtype, RData.rtype]
+
+def isErr (e : Err) : Except Err Response → Bool
+  | .error e' => e == e'
+  | .ok _ => false
+
+/-- the cycle is followed until the depth counter stops it; no address is ever learnt, so the
+resolution ends in an error (an empty pool) after 13 pool lookups, and the only address ever
+contacted is the root hint -/
+example : isErr .io (resolve (cfg 6) cycleNet ⟨nWA, T_A⟩ St.empty).2 = true := by decide +kernel
+example : (resolve (cfg 6) cycleNet ⟨nWA, T_A⟩ St.empty).1.lookups = 13 := by decide +kernel
+example : (resolve (cfg 24) cycleNet ⟨nWA, T_A⟩ St.empty).1.lookups = 67 := by decide +kernel
+example : ((resolve (cfg 6) cycleNet ⟨nWA, T_A⟩ St.empty).1.log.map (·.1)).all (· == rootIp) = true := by
+  decide +kernel
+
+/-- … and `queries_bounded` applies to it -/
+example : (resolve (cfg 6) cycleNet ⟨nWA, T_A⟩ St.empty).1.lookups ≤ 0 + B 6 1 :=
+  queries_bounded cycleNet_bound _ _ (cacheBound_empty 1)
+
+/-- CNAME loop `a. CNAME b.` / `b. CNAME a.` served by the root itself: the chase stops at the
+`recursion_limit` -/
+def cnameNet : Net := fun _ q =>
+  if q.qtype == T_NS then
+    .msg { rcode := 0, aa := true, answers := [], authorities := [⟨Name.root, 300, .soa 300⟩], additionals := [] }
+  else
+    .msg { rcode := 0, aa := true,
+           answers := [⟨q.name, 300, .cname (if q.name.eq nA then nB else nA)⟩],
+           authorities := [], additionals := [] }
+
+example : isErr .limit (resolve { cfg 24 with recursionLimit := 5 } cnameNet ⟨nA, T_A⟩ St.empty).2 = true := by
+  decide +kernel
+example : (resolve { cfg 24 with recursionLimit := 5 } cnameNet ⟨nA, T_A⟩ St.empty).1.lookups = 4 := by
+  decide +kernel
+end Ex
+
+/-! ## 9. the two places where the code does not meet the property (findings)
+
+### 9a. negative responses bypass the bailiwick filter  (`C19.NegativeResponseUnfiltered`)
+
+Full-strength statement (FALSE for the code as it is):
+  `∀ net q zone pool st e, (lookup cfg net q zone pool st).2 = .error e →
+      every record carried by `e` (SOA, authority records, referral NS + glue) is in the bailiwick of `zone``
+and the same for the entry `lookup` stores in the response cache.  `lookup` returns (and caches)
+the `NoRecordsFound` error of the pool untouched.  Proved instead: the payload of the error is
+exactly the authority/additional section of the server's response, so the statement holds for
+every response whose authority and additional sections are inside the zone
+(`¬ negativeWithForeignRecords zone q r`). -/
+
+def errRecords : Err → List Record
+  | .noRecords _ soa ns auths _ => soa.toList ++ auths ++ ns.flatMap fun e => e.1 :: e.2
+  | _ => []
+
+theorem negative_payload_partial {zone : Name} {q : Query} {r : Response} {e : Err}
+    (hclean : negativeWithForeignRecords zone q r = false) (h : fromResponse q r = .error e) :
+    ∀ x ∈ errRecords e, isSubzone zone x.name = true := by
+  have hall : ∀ x ∈ r.authorities ++ r.additionals, isSubzone zone x.name = true ∨
+      ¬ (∃ a b c d t, e = .noRecords a b c d t) := by
+    intro x hx
+    unfold negativeWithForeignRecords at hclean
+    rw [h] at hclean
+    cases e with
+    | noRecords a b c d t =>
+      left
+      simp only [Bool.true_and, List.any_eq_false, Bool.not_eq_true', Bool.not_eq_false] at hclean
+      exact hclean x hx
+    | _ => right; rintro ⟨a, b, c, d, t, he⟩; cases he
+  unfold fromResponse at h
+  split at h
+  · cases h; intro x hx; simp [errRecords] at hx
+  · split at h
+    · cases h
+      intro x hx
+      have hsub : x ∈ r.authorities ++ r.additionals := by
+        simp only [errRecords, List.mem_append, Option.mem_toList, List.mem_flatMap, List.mem_map,
+          List.mem_filter, List.mem_cons] at hx
+        rcases hx with (hx | hx) | ⟨e', ⟨ns, ⟨hns, _⟩, rfl⟩, hx⟩
+        · exact List.mem_append_left _ (List.mem_of_find?_eq_some hx)
+        · exact List.mem_append_left _ hx
+        · rcases hx with rfl | hx
+          · exact List.mem_append_left _ hns
+          · unfold glueFor at hx
+            split at hx
+            · exact List.mem_append_right _ (List.mem_filter.1 hx).1
+            · cases hx
+      rcases hall x hsub with h' | h'
+      · exact h'
+      · exact absurd ⟨_, _, _, _, _, rfl⟩ h'
+    · cases h
+
+namespace Ex
+/-- the `a.` server answers `n.a. AAAA` with NODATA and an authority section delegating `b.` -/
+def negNet : Net := fun _ _ =>
+  .msg { rcode := 0, aa := true, answers := [], authorities := [⟨nB, 300, .ns nNA⟩, ⟨nB, 300, .soa 300⟩],
+         additionals := [] }
+
+/-- counter-example (replay `corpus/C19/negative-answer-with-foreign-authority.case`): the error
+`lookup` returns for zone `a.` carries — and the response cache keeps — records owned by `b.` -/
+example :
+    let res := lookup (cfg 24) negNet ⟨nNA, T_AAAA⟩ nA ⟨[rootIp], nA⟩ St.empty
+    (match res.2 with
+      | .error e => (errRecords e).any fun x => !isSubzone nA x.name
+      | .ok _ => false) = true ∧
+    (match rcGet res.1.rcache ⟨nNA, T_AAAA⟩ with
+      | some (.error e) => (errRecords e).any fun x => !isSubzone nA x.name
+      | _ => false) = true ∧
+    negativeWithForeignRecords nA ⟨nNA, T_AAAA⟩
+      { rcode := 0, aa := true, answers := [],
+        authorities := [⟨nB, 300, .ns nNA⟩, ⟨nB, 300, .soa 300⟩], additionals := [] } = true := by
+  decide +kernel
+end Ex
+
+/-! ### 9b. `append_ips_from_lookup` takes every address in the answer section, whatever its owner
+(`C19.GluelessNsAddressOwnerUnchecked`)
+
+Full-strength statement (FALSE for the code as it is):
+  `every address of a pool built through `append_ips_from_lookup` is the rdata of a record whose
+   owner is the name-server name that was looked up (or at least inside the zone of the pool asked)`.
+The address lookups go straight to the pool — no bailiwick filter, no owner check.  Proved
+instead: the addresses are exactly the admitted addresses of the answer section, so the statement
+holds for every response without a foreign-owner address record (`¬ foreignOwnerAnswer`). -/
+
+theorem ns_addr_owner_partial {f : Acs} {n : Name} {ty : Nat} {r : Response}
+    (hty : ty = T_A ∨ ty = T_AAAA)
+    (hclean : foreignOwnerAnswer ⟨n, ty⟩ r = false) :
+    ∀ ip ∈ answerIps f r, ∃ x ∈ r.answers, x.name.eq n = true ∧ x.data.ip? = some ip ∧
+      f.denied ip = false := by
+  intro ip hip
+  unfold answerIps at hip
+  simp only [List.mem_filter, List.mem_filterMap] at hip
+  obtain ⟨⟨x, hx, hxi⟩, hden⟩ := hip
+  refine ⟨x, hx, ?_, hxi, by simpa using hden⟩
+  unfold foreignOwnerAnswer at hclean
+  have hq : (ty == T_A || ty == T_AAAA) = true := by rcases hty with rfl | rfl <;> decide
+  simp only [hq, Bool.true_and, List.any_eq_false, Bool.and_eq_true, Bool.not_eq_true',
+    not_and, Bool.not_eq_false] at hclean
+  exact hclean x hx (by simp [hxi])
+
+namespace Ex
+/-- the server asked for `n.b. A` answers with `w.a. A 9` -/
+def foreignNet : Net := fun _ _ =>
+  .msg { rcode := 0, aa := true, answers := [⟨nWA, 300, .a 9⟩], authorities := [], additionals := [] }
+
+/-- counter-example (replay `corpus/C19/glueless-ns-address-with-foreign-owner.case`): the
+address 9, owned by `w.a.`, becomes a name-server address for the zone being built -/
+example :
+    (lookupAddr (cfg 24) foreignNet ⟨[rootIp], nB⟩ nNB T_A St.empty).2 = [⟨false, 9⟩] ∧
+    foreignOwnerAnswer ⟨nNB, T_A⟩
+      { rcode := 0, aa := true, answers := [⟨nWA, 300, .a 9⟩], authorities := [], additionals := [] }
+      = true := by
+  decide +kernel
+end Ex
+
+/-! ## 10. the stub resolver's alias chasing -/
+
+theorem stubLookup_le (up : Query → Except Err Response) :
+    ∀ (f : Nat) (q : Query) (d : Nat), (stubLookup up f q d).2 ≤ f := by
+  intro f
+  induction f with
+  | zero => intro q d; simp [stubLookup]
+  | succ f ih =>
+    intro q d
+    unfold stubLookup
+    split
+    · simp
+    · simp
+    · rename_i target _
+      split
+      · simp
+      · have := ih ⟨target, q.qtype⟩ (d + 1)
+        dsimp only
+        omega
+
+/-- **`stub_alias_chain_le`**: whatever the upstream answers (alias loops included), one stub
+lookup sends at most `MAX_QUERY_DEPTH` (8) upstream queries, i.e. follows at most 7 aliases. -/
+theorem stub_alias_chain_le (up : Query → Except Err Response) (q : Query) :
+    (stubResolve up q).2 ≤ MAX_QUERY_DEPTH :=
+  stubLookup_le up _ q 0
+
+/-- the recursion of `inner_lookup` is cut by the `DepthTracker`, never by the model's fuel: with
+`f` = distance to `MAX_QUERY_DEPTH`, more fuel changes nothing -/
+theorem stub_fuel_irrelevant (up : Query → Except Err Response) :
+    ∀ (f : Nat) (q : Query) (d : Nat), d + f = MAX_QUERY_DEPTH → 1 ≤ f →
+      ∀ k, stubLookup up (f + k) q d = stubLookup up f q d := by
+  intro f
+  induction f with
+  | zero => intro q d _ h; omega
+  | succ f ih =>
+    intro q d hd _ k
+    have : f + 1 + k = (f + k) + 1 := by omega
+    rw [this]
+    unfold stubLookup
+    split
+    · rfl
+    · rfl
+    · split
+      · rfl
+      · rename_i hex
+        have hf : 1 ≤ f := by
+          simp only [depthExhausted, decide_eq_true_eq, Nat.not_le] at hex
+          omega
+        rw [ih _ (d + 1) (by omega) hf k]
+
+namespace Ex
+/-- an alias loop: every answer is `q CNAME (the other name)` -/
+def aliasLoop : Query → Except Err Response := fun q =>
+  .ok { rcode := 0, aa := false, answers := [⟨q.name, 60, .cname (if q.name.eq nA then nB else nA)⟩],
+        authorities := [], additionals := [] }
+example : stubResolve aliasLoop ⟨nA, T_A⟩ = (false, 8) := by decide +kernel
+end Ex
+
 end HickoryVerif.C19
